@@ -98,6 +98,12 @@ func assertSnapEqual(a, b *fileSnap, what string, withHeader bool) {
 // lists, overwrite pages, metadata pages and live pages are pairwise disjoint.
 func (s *progState) assertPartition(what string) {
 	sn := snapOf(s.f)
+	for _, l := range []regionList{s.f.allocator.data.freelist.regions, s.f.allocator.meta.freelist.regions} {
+		for k := range l {
+			verifAssert(l[k].count > 0, what+": no free list holds an empty region")
+			verifAssert(k == 0 || l[k-1].id+PageID(l[k-1].count) <= l[k].id, what+": free list regions are sorted and do not overlap")
+		}
+	}
 	owner := map[PageID]int{}
 	add := func(ids []PageID, who int) {
 		for _, id := range ids {
